@@ -17,6 +17,7 @@ from scipy import integrate, interpolate, sparse
 from bluebonnet.flow.flowproperties import FlowProperties
 
 _ATOL = 1e-12
+_RTOL = 1e-13
 
 
 @dataclass
@@ -70,7 +71,12 @@ class IdealReservoir:
             alpha_scaled = self.alpha_scaled(b)
             kt_h2 = mesh_ratio * alpha_scaled
             a_matrix = _build_matrix(kt_h2)
-            pseudopressure[i + 1], _ = sparse.linalg.bicgstab(a_matrix, b, atol=_ATOL)
+            pseudopressure[i + 1], info = sparse.linalg.bicgstab(
+                a_matrix, b, atol=_ATOL, rtol=_RTOL
+            )
+            if info != 0:
+                msg = f"linear solve did not converge at time step {i} (info={info})"
+                raise RuntimeError(msg)
         self.pseudopressure = pseudopressure
 
     def recovery_factor(self, time: ndarray | None = None, density=False) -> ndarray:
@@ -212,7 +218,12 @@ class SinglePhaseReservoir(IdealReservoir):
             b[0] = m_f[i] + alpha_scaled[0] * m_f[i] * mesh_ratio
             kt_h2 = mesh_ratio * alpha_scaled
             a_matrix = _build_matrix(kt_h2)
-            pseudopressure[i + 1], _ = sparse.linalg.bicgstab(a_matrix, b, atol=_ATOL)
+            pseudopressure[i + 1], info = sparse.linalg.bicgstab(
+                a_matrix, b, atol=_ATOL, rtol=_RTOL
+            )
+            if info != 0:
+                msg = f"linear solve did not converge at time step {i} (info={info})"
+                raise RuntimeError(msg)
         self.pseudopressure = pseudopressure
 
 
